@@ -6,7 +6,8 @@
    S = Spec/C13.v (locations: `directory` relative to the root, `file` and -I
        relative to that directory, component by component). *)
 From Coq Require Import Bool Arith Ascii String List.
-From CBI Require Import Lib.Res Model.C13p Model.C13fs Model.C13 Spec.C13 Proofs.C13p Proofs.C13.
+From CBI Require Import Lib.Res Model.C13p Model.C13fs Model.C13 Spec.C13 Spec.C13db
+  Proofs.C13p Proofs.C13 Proofs.C13db Proofs.C13k.
 Import ListNotations.
 
 (* For EVERY working directory string that is absolute, EVERY rootdir, directory
@@ -58,6 +59,75 @@ Theorem C13_normpath_absolute :
 Proof. exact normpath_abs. Qed.
 Print Assumptions C13_normpath_absolute.
 
+(* ---- what a real compiler process would do (kernel walk on a tree without links) ---- *)
+(* If a compiler started in `directory` (chdir succeeds) can open `file`, the
+   file it opens is at S's location; an include directory it can search is at
+   S's location.  (The converse needs every directory a spelling passes through
+   to exist; the harness computes that per case and counts the rest as outside
+   the domain.) *)
+Theorem C13_compiler_view :
+  forall fs root directory,
+    (forall file l, k_file fs root directory file = Some l ->
+                    l = s_file root directory file /\ kind_of fs l = Some false) /\
+    (forall i l, k_inc fs root directory i = Some l ->
+                 l = resolve (s_dir root directory) i /\ kind_of fs l = Some true).
+Proof. intros fs root d. split; [apply k_file_lexical|apply k_inc_lexical]. Qed.
+Print Assumptions C13_compiler_view.
+
+(* os.path.exists on the normalised string = the location exists, in every
+   tree in which the parent of each object is a directory *)
+Theorem C13_exists :
+  forall fs c k l, wf_fs fs -> 1 <= k -> all_proper l ->
+    os_path_exists fs c (render k l) = match kind_of fs l with Some _ => true | None => false end.
+Proof. exact exists_render. Qed.
+Print Assumptions C13_exists.
+
+(* ---- skipped entries ---- *)
+(* the three kinds of entries named by the property are skipped, each with a warning *)
+Theorem C13_skipped_kinds :
+  forall fs cwd rootdir d f,
+    do_entry fs cwd rootdir d f [] = Ok ([], [WUnsupported]) /\
+    (forall a, is_source_file f = false -> do_entry fs cwd rootdir d f a = Ok ([], [WUnsupported])) /\
+    (forall a, is_supported f a = true ->
+       os_path_exists fs (cwdloc cwd) (file_path cwd (filedir cwd rootdir d) f) = false ->
+       do_entry fs cwd rootdir d f a = Ok ([], [WMissing (file_path cwd (filedir cwd rootdir d) f)])).
+Proof.
+  intros. split; [apply empty_command_skipped|].
+  split; [apply non_source_skipped|apply missing_file_skipped].
+Qed.
+Print Assumptions C13_skipped_kinds.
+
+(* a skipped entry never aborts or alters the rest: with it or without it the
+   database loads to the same entries (or the same error), and the warnings
+   differ by exactly its own warning, in place *)
+Theorem C13_skips_are_local :
+  forall fs cwd rootdir xs bad ys w,
+    skipped fs cwd rootdir bad w ->
+    match load_database fs cwd rootdir (xs ++ ys) with
+    | Err e => load_database fs cwd rootdir (xs ++ bad :: ys) = Err e
+    | Ok (o, ws) => exists w1 w2, ws = w1 ++ w2 /\
+                      load_database fs cwd rootdir (xs ++ bad :: ys) = Ok (o, w1 ++ w :: w2)
+    end.
+Proof. exact skips_are_local. Qed.
+Print Assumptions C13_skips_are_local.
+
+(* ---- the whole database: M = S ---- *)
+(* For every well-formed tree, absolute working directory and database that S
+   is defined on (every object has `file` and a command argparse accepts):
+   load_database succeeds; reading its strings back as locations gives exactly
+   the (file, include directories) S assigns to the analysed entries, in
+   order; and its warnings are exactly S's skips, in order, plus the final
+   "no files" warning iff nothing is analysed. *)
+Theorem C13_database :
+  forall fs cwd rootdir, wf_fs fs -> isabs cwd = true ->
+  forall es outs,
+    s_db fs (resolve (cwdloc cwd) rootdir) es = Some outs ->
+    exists o w, load_database fs cwd rootdir es = Ok (o, w) /\
+      map denote_entry o = opens outs /\
+      map denote_warn w = swarns outs ++ (match opens outs with [] => [SWNoFiles] | _ => [] end).
+Proof. exact load_database_spec. Qed.
+Print Assumptions C13_database.
+
 (* non-vacuity: a relative `directory` with a '..' in the file and a relative -I *)
 Example C13_nonvacuous :
   let cwd := s "/w" in let rootdir := s "/w/root" in
@@ -68,3 +138,32 @@ Example C13_nonvacuous :
   inc_path cwd (filedir cwd rootdir d) (s "inc") = s "/w/root/build/inc" /\
   inc_path cwd (filedir cwd (s "//w/root") None) (s "../x") = s "//w/x".
 Proof. vm_compute. repeat split. Qed.
+
+(* non-vacuity of the database theorems: a well-formed tree, a database mixing
+   a relative `directory`, an object file, an empty command and a missing file *)
+Definition ex_fs : fsys :=
+  [([s "w"], true); ([s "root"; s "w"], true); ([s "src"; s "root"; s "w"], true);
+   ([s "build"; s "root"; s "w"], true); ([s "inc"; s "build"; s "root"; s "w"], true);
+   ([s "a.c"; s "src"; s "root"; s "w"], false); ([s "a.o"; s "build"; s "root"; s "w"], false)].
+Definition ex_db : list entry :=
+  [ {| e_dir := Some (s "build"); e_file := Some (s "../src/a.c"); e_argv := Some [s "gcc"; s "-Iinc"; s "-c"; s "../src/a.c"] |};
+    {| e_dir := Some (s "build"); e_file := Some (s "a.o"); e_argv := Some [s "gcc"; s "a.o"] |};
+    {| e_dir := None; e_file := Some (s "src/a.c"); e_argv := Some [] |};
+    {| e_dir := Some (s "/w/root/build"); e_file := Some (s "gen.c"); e_argv := Some [s "cc"; s "gen.c"] |} ].
+Example C13_nonvacuous_db :
+  wf_fs ex_fs /\
+  s_db ex_fs (resolve (cwdloc (s "/w")) (s "/w/root")) ex_db
+    = Some [SOpen [s "a.c"; s "src"; s "root"; s "w"] [[s "inc"; s "build"; s "root"; s "w"]];
+            SSkipUnsupported; SSkipUnsupported; SSkipMissing [s "gen.c"; s "build"; s "root"; s "w"]] /\
+  load_database ex_fs (s "/w") (s "/w/root") ex_db
+    = Ok ([ {| o_file := s "/w/root/src/a.c"; o_incs := [s "/w/root/build/inc"] |} ],
+          [WUnsupported; WUnsupported; WMissing (s "/w/root/build/gen.c")]) /\
+  skipped ex_fs (s "/w") (s "/w/root") (nth 1 ex_db (Build_entry None None None)) WUnsupported /\
+  k_file ex_fs [s "root"; s "w"] (Some (s "build")) (s "../src/a.c") = Some [s "a.c"; s "src"; s "root"; s "w"].
+Proof.
+  split; [apply wf_b_correct; vm_compute; reflexivity|].
+  split; [vm_compute; reflexivity|].
+  split; [vm_compute; reflexivity|].
+  split; [|vm_compute; reflexivity].
+  exists (s "a.o"), [s "gcc"; s "a.o"]. repeat split.
+Qed.
